@@ -13,6 +13,17 @@ pub fn name_bytes() -> BoxedStrategy<(Vec<u8>, bool)> {
         1 => proptest::collection::vec(any::<u8>(), 0..20).prop_map(|b| (b, true)),
         1 => Just((vec![], false)),
         1 => "[a-z./\\\\]{1,12}".prop_map(|s| (s.into_bytes(), false)),
+        // bytes >= 0x80 that happen to be well-formed UTF-8 but are NOT flagged as such (CP437 applies)
+        1 => "[a-zé漢ß]{1,8}(/[a-zéü]{1,6}){0,2}".prop_map(|s| (s.into_bytes(), false)),
+        // one path component longer than NAME_MAX (255 bytes) with multi-byte characters around that offset
+        1 => (240usize..300, 0usize..12, any::<bool>()).prop_map(|(a, k, flag)| {
+            let mut s = "c".repeat(a);
+            s.push_str(&"é漢😀".repeat(k + 1));
+            s.push_str("/tail.txt");
+            (s.into_bytes(), flag)
+        }),
+        // DOS drive prefixes and device-style names
+        1 => prop_oneof![Just("C:.."), Just("C:..\\evil.txt"), Just("c:/x/y"), Just("C:."), Just("C:\\..\\x"), Just("d:x/../../y"), Just("C:"), Just("//server/share/x"), Just("\\\\?\\C:\\x")].prop_map(|s| (s.as_bytes().to_vec(), false)),
     ]
     .boxed()
 }
@@ -87,6 +98,19 @@ pub fn entry(max: u32, allow_unsupported: bool) -> BoxedStrategy<EntrySpec> {
                         }
                         _ => le.push(r),
                     }
+                }
+            }
+            // rarely: a very long name next to very long extra fields (each fits its 16-bit length field,
+            // their sum does not fit 16 bits)
+            let mut nb = nb;
+            if wk >= 250 {
+                let n = 30000 + (wk as usize - 250) * 6000 + content.len() % 500;
+                nb.0 = "L".repeat(n.min(65535)).into_bytes();
+                let big = Extra { id: 0xb16b, data: vec![0xab; 40000 - (wk as usize - 250) * 3000] };
+                if wk % 2 == 0 {
+                    ceb.insert(0, big);
+                } else {
+                    le.insert(0, big);
                 }
             }
             let raw_payload = if matches!(method, 0 | 8 | 12 | 93) { None } else { Some(Content::Rand { seed: content.len() as u64 * 31 + 7, len: (content.len() as u32 / 2 + 3).min(5000) }) };
